@@ -173,9 +173,12 @@ def gen_cases(rng, n_cases):
     return cases
 
 
+FX = [0]   # 1 when the tree under test has repo_patches/C14-sol-reader-bounds.diff applied (decided by a behavioural probe)
+
+
 def case_line(c):
     rv, da, pa, sa = c['pol']
-    return 'case %s %d %d %d %s %s %s %s' % (c['id'], c['nv'], c['nc'], rv, da, pa, sa, c['bytes'].hex() or '-')
+    return 'case %s %d %d %d %d %s %s %s %s' % (c['id'], FX[0], c['nv'], c['nc'], rv, da, pa, sa, c['bytes'].hex() or '-')
 
 
 # ---------------------------------------------------------------- property oracle on the implementation's output
@@ -278,6 +281,13 @@ def run(ck):
             failing += ['leanchecker rejected %s' % m for m in bad]
             proof_ok = False
 
+    # behavioural probe: is the bounds patch applied in the tree under test?  (decides which variant of the model is compared)
+    probe = dict(id='probe', family='probe', nv=0, nc=0, pol=(0, 'all', 'all', 'all'),
+                 bytes=b'm\n\nobjno 0 0\nsuffix 0 0 600 0 0\nfoo\n')
+    pi, _, _, _ = run_streams(ck, [probe], 'probe')
+    FX[0] = 0 if ' ABORT ' in pi[0] else 1
+    ck.log('probe: %s -> comparing against the %s model' % (pi[0][:60], 'patched (fx=1)' if FX[0] else 'as-is (fx=0)'))
+    ck.cov['model_variant'] = 'patched' if FX[0] else 'as-is'
     rng = random.Random(ck.seed * 1000003 + 14)
     n_cases = 2500 if ck.tier == 'quick' else 30000
     cases = gen_cases(rng, n_cases)
